@@ -25,12 +25,13 @@ func runC15(c *Ctx) {
 	c15Epoch(c)
 	// The JIT's higher tiers are the optimiser: "behaves exactly like a fresh baseline compilation" needs the optimiser's
 	// fact discipline. The corresponding C03 rule sets are evaluated here under C15-R9 (same constructs).
-	c.ruleAlias = map[string]string{"C03-R7": "C15-R9", "C03-R8": "C15-R9", "C03-R9": "C15-R9", "C03-R10": "C15-R9", "C03-R11": "C15-R9", "C03-R12": "C15-R9"}
+	c.ruleAlias = map[string]string{"C03-R1": "C15-R9", "C03-R2": "C15-R9", "C03-R3": "C15-R9", "C03-R4": "C15-R9", "C03-R7": "C15-R9", "C03-R8": "C15-R9", "C03-R9": "C15-R9", "C03-R10": "C15-R9", "C03-R11": "C15-R9", "C03-R12": "C15-R9"}
 	c03Aliasing(c)
 	c03Kill(c)
 	c03Keys(c)
 	c03Rebuild(c)
 	c03Identities(c)
+	c03Core(c)
 	c.ruleAlias = nil
 	c.rule("C15-R8", "PAIR: every Lock/RLock in pkg/jit is released on every path to a return; REACQ: no method calls, while it holds its receiver's mutex, a method of the same receiver that acquires that mutex again (sync mutexes are not re-entrant; a second RLock blocks once a writer waits)")
 	c.Sites["C15-R8#acquire-sites"] = lockReleaseAudit(c, "C15-R8", []string{"pkg/jit"})
